@@ -39,6 +39,8 @@ def run_one(m, tier):
         for pid in m['checks']:
             env2 = dict(os.environ)
             env2['VT_REPO'] = repo
+            env2['VT_EVIDENCE_DIR'] = os.path.join(d, 'ev')
+            env2['VT_REPLAY_DIR'] = os.path.join(d, 'rp')
             env2['VT_JOBS'] = str(m.get('jobs', 4))
             q = subprocess.run([os.path.join(HERE, 'check'), pid, '--tier', tier], env=env2,
                                capture_output=True, text=True, cwd=HERE)
